@@ -167,8 +167,10 @@ def check_meta_rows(world, side, handle, state):
             _fail(world, 'meta-ne-row', f'loose key={key[:12]} meta={meta}')
 
 
-def check_packs_monotone(world, side, pre, post_state, post_bytes):
-    """C13: referenced bytes never change, packs only grow at the end, numbered 0..n-1, only the last below target."""
+def check_packs_monotone(world, side, pre, post_state, post_bytes, fill_rules=True):
+    """C13: referenced bytes never change, packs only grow at the end, numbered 0..n-1, only the last below target.
+    ``fill_rules=False`` checks the append-only clauses alone (used after a fault that made data the library believes
+    written disappear: its size arithmetic is then legitimately off, what is referenced must still never change)."""
     pre_state, pre_bytes = pre
     target = side.config['pack_size_target']
     for row in pre_state.rows:
@@ -184,6 +186,8 @@ def check_packs_monotone(world, side, pre, post_state, post_bytes):
             name = str(row['pack_id'])
             if row['offset'] + row['length'] > len(blobs.get(name, b'')):
                 _fail(world, 'pack-shorter-than-reference', f'{when}: pack {name} shorter than its last referenced byte')
+    if not fill_rules:
+        return
     ids = sorted(int(n) for n in post_bytes if n != '-1')
     if ids != list(range(len(ids))):
         _fail(world, 'pack-ids-not-consecutive', f'{ids}')
